@@ -139,7 +139,9 @@ func (c01) Run(x *Exec, scn any) {
 	}
 	cfg := s.Sys.Render()
 	var err error
-	pv, st := call(func() { err = log.Refresh(cfg) })
+	var pv any
+	var st string
+	x.do("refresh", func() { pv, st = call(func() { err = log.Refresh(cfg) }) })
 	if pv != nil {
 		o.violate("refresh-panic", "C01/refresh-panic/"+panicSite(st), "Refresh panicked on a valid configuration: %v\n%v", pv, cfg)
 		return
